@@ -935,7 +935,7 @@ static double _fff_onesample_wilcoxon_mfx(void* params, const fff_vector* x, con
 
   /* Sort the absolute residuals and get the permutation of indices */
   /**  gsl_sort_vector_index(Params->idx, Params->tmp1); **/
-  _fff_sort_z(Params->idx, Params->tmp1, Params->tmp2, Params->z, Params->w);
+  _fff_sort_z(Params->idx, Params->tmp1, Params->tmp2, Params->tmp1, Params->w);
 
   /* Compute the sum of ranks */
   /** Ri = 0.0;
@@ -950,8 +950,8 @@ static double _fff_onesample_wilcoxon_mfx(void* params, const fff_vector* x, con
       t -= wi * Ri;
       }**/
   Ri = 0.0;
-  for(i=1, buf1=Params->tmp1->data, buf2=Params->tmp2->data; i<=n; i++) {
-    zi = *buf1;
+  for(i=0, buf2=Params->tmp2->data; i<n; i++, buf2+=Params->tmp2->stride) {
+    zi = Params->z->data[ Params->idx[i].i * Params->z->stride ];
     wi = *buf2;
     Ri += wi;
     if (zi > base)
